@@ -17,7 +17,7 @@ EXN = {'TopologyException': 'ETopology', 'PropertyGraphQueryException': 'EQuery'
 CLS = {'NetworkNode': 1, 'Component': 2, 'NetworkService': 3, 'ConnectionPoint': 4, 'Link': 5, 'CompositeNode': 6}
 REL = {'has': 1, 'connects': 2}
 TYPES = {'Facility': 1, 'SubInterface': 2, 'SharedPort': 3, 'ServicePort': 4, 'DedicatedPort': 5, 'L2PTP': 6,
-         'L2Path': 7, 'Patch': 8, 'FacilityPort': 9, 'Switch': 10}
+         'L2Path': 7, 'Patch': 8, 'FacilityPort': 9, 'Switch': 10, 'PortMirror': 11}
 _types_dyn = {}
 
 
@@ -33,6 +33,27 @@ def switch_rollback():
         src = inspect.getsource(Topology.add_switch)
         _switch_rb.append('remove_network_node_with_components_nss_cps_and_links' in src and 'except' in src)
     return _switch_rb[0]
+
+
+_flags = {}
+
+
+def source_flag(key, fn, needle):
+    """a repair that may or may not be in the running library, read off its source (the model takes it as a flag)"""
+    if key not in _flags:
+        import inspect
+        _flags[key] = needle in inspect.getsource(fn())
+    return _flags[key]
+
+
+def component_precheck():
+    from fim.graph.abc_property_graph import ABCPropertyGraph
+    return source_flag('comp', lambda: ABCPropertyGraph.add_component_sliver, 'pairwise distinct')
+
+
+def connect_rollback():
+    from fim.user.network_service import NetworkService
+    return source_flag('conn', lambda: NetworkService.connect_interface, 'remove_cp_and_links')
 
 
 def ctype(t):
@@ -72,6 +93,25 @@ def coq_ifs(l, ids):
 
 def coq_call(s, info, ids):
     op = s['op']
+    if op == 'rename':
+        return 'CRename %s %s %s' % (cN(ids(info['id'])), cN(info['kind']), cstr(s['new']))
+    if op == 'set_props':
+        return 'CSetProps %s %s %s' % (cN(ids(info['id'])), cexn(info['pure']), cN(info['new_rest']))
+    if op == 'remove_link':
+        return 'CRemoveLink %s' % cstr(s['name'])
+    if op == 'unpeer':
+        return 'CUnpeer %s %s' % (cN(ids(info['a'])), cN(ids(info['b'])))
+    if op == 'port_mirror':
+        to = 'None' if info['to'] is None else '(Some (mkIface %d %s))' % (ids(info['to'][0]), cstr(info['to'][1]))
+        return 'CPortMirror %s %s %s %s %s' % (cstr(s['name']), copt(s.get('node_id'), lambda x: cN(ids(x))), to,
+                                               cbool(s.get('from') is not None), cexn(info['pure']))
+    if op == 'connect':
+        return 'CConnect %s %s (mkIface %d %s)' % (cbool(connect_rollback()), cN(ids(info['svc'])),
+                                                   ids(info['if'][0]), cstr(info['if'][1]))
+    if op == 'add_child':
+        return 'CAddChild %s %s %s %s %s' % (cN(ids(info['id'])), cstr(s['name']),
+                                             copt(s.get('node_id'), lambda x: cN(ids(x))),
+                                             cexn(info['label_verdict']), cexn(info['pure']))
     if op == 'peer':
         return 'CPeer %s %s %s' % (cN(ids(info['a'])), cN(ids(info['b'])), cexn(info['pure']))
     oid = copt(s.get('node_id'), lambda x: cN(ids(x)))
@@ -107,7 +147,7 @@ def coq_call(s, info, ids):
                 child = '(Some (mkChildNs %s %s %s %s))' % (cstr(ch['ns_name']), cN(ctype(ch['ns_type'])),
                                                           copt(ch['ns_id'], lambda x: cN(ids(x))), cifs)
             cat = '(Ok (mkCompSpec %s %s))' % (cN(ctype(info['cat']['ctype'])), child)
-        return 'CAddComponent %s %s %s %s %s %s %s %s' % (cN(ids(info['parent'])), name, oid, cbool(spec_given),
+        return 'CAddComponent %s %s %s %s %s %s %s %s %s' % (cbool(component_precheck()), cN(ids(info['parent'])), name, oid, cbool(spec_given),
                                                          cbool(nic), cbool(sub_ids), cat, cexn(info['pure']))
     if op == 'add_facility':
         nid = s.get('node_id')
@@ -184,6 +224,10 @@ class Steps(Stream):
         pre_ids = {n[0] for n in o['pre']['nodes']}
         pre = coq_graph(o['pre'], ids, rests)
         post = coq_graph(o['post'], ids, rests, pre_ids)
+        if case['call']['op'] == 'set_props':
+            src = o['post'] if o['exc'] is None else o['pre']
+            rr = [n[4] for n in src['nodes'] if n[0] == o['info']['id']]
+            o['info']['new_rest'] = rests(rr[0]) if rr else 0
         call = coq_call(case['call'], o['info'], ids)
         fresh = clist([cN(ids(x)) for x in o['fresh']])
         return '(mkCase %s %s %s (%s) %s %s)' % ('Experiment' if case['flavour'] == 'exp' else 'Substrate', pre, fresh,
